@@ -64,6 +64,13 @@ func c15Directed(c *fw.C) *pair {
 	return &pair{E: e, Old: o, New: n, Relation: "directed_passthrough_chain", Desc: "directed: top-layer key 1700 deleted next to a pass-through chain"}
 }
 
+func max1(x int) int {
+	if x < 1 {
+		return 1
+	}
+	return x
+}
+
 func runC15(c *fw.C) {
 	r := c.R
 	cfg := pickCfg(r)
@@ -235,23 +242,52 @@ func runC15(c *fw.C) {
 		if D == 0 && loaded != 0 {
 			c.Violation("C15.same_version_reads_nothing", ctx2, "%s of a version against itself (root %s) loaded %d distinct nodes | %s cfg{%s}", what, rootStr(p.New.Root), loaded, p.Desc, cfg)
 		} else if loaded > 2*D+2 {
-			// classify the excess: how many of the loaded nodes are entry-less
-			// pass-through nodes common to both versions?
-			pt := 0
+			// classify the excess. The recorded finding D20: to place an added/removed entry the
+			// diff walks down the LEFTMOST SPINE (Link[0], Link[0], ...) of an unchanged
+			// neighbouring subtree. Such a walk shows up as a chain of loaded nodes common to
+			// both versions, each the first child of the one before. At most two such chains
+			// per differing entry are attributed to D20; anything else is a violation.
+			common := map[string]bool{}
 			for nme := range loadedSet {
 				if ro[nme] && rn[nme] {
-					if b, ok := e.Store.Get(nme); ok {
-						if nd, err := ref.Decode(e.Format, b); err == nil && len(nd.Keys) == 0 {
-							pt++
-						}
-					}
+					common[nme] = true
 				}
 			}
-			ctx2["excess"] = "keyed_common_nodes"
-			if loaded-pt <= 2*D+2 {
-				ctx2["excess"] = "passthrough_chain_only"
+			firstChildOfLoadedCommon := map[string]bool{}
+			pt := 0
+			for nme := range common {
+				var b []byte
+				var ok bool
+				if b, ok = e.Store.Get(nme); !ok {
+					b, ok = p.OE.Store.Get(nme)
+				}
+				if !ok {
+					continue
+				}
+				nd, err := ref.Decode(e.Format, b)
+				if err != nil {
+					continue
+				}
+				if len(nd.Keys) == 0 {
+					pt++
+				}
+				if len(nd.Links) > 0 && nd.Links[0] != "" && common[nd.Links[0]] {
+					firstChildOfLoadedCommon[nd.Links[0]] = true
+				}
 			}
-			c.Violation("C15.reads_bounded_by_change", ctx2, "%s loaded %d distinct nodes (%d of them entry-less pass-through nodes common to both versions); the versions differ in D=%d nodes, bound 2D+2=%d (old has %d nodes, new %d) | %s cfg{%s}", what, loaded, pt, D, 2*D+2, len(ro), len(rn), p.Desc, cfg)
+			heads := 0
+			for nme := range common {
+				if !firstChildOfLoadedCommon[nme] {
+					heads++
+				}
+			}
+			E := len(expectedDiff(p.Old.M, p.New.M))
+			ctx2["excess"] = "other_common_nodes"
+			if heads <= 2*E {
+				ctx2["excess"] = "leftmost_spines_of_common_subtrees"
+			}
+			c.MaxObs("max_spine_chains_per_differing_entry_x100", int64(heads*100/max1(E)))
+			c.Violation("C15.reads_bounded_by_change", ctx2, "%s loaded %d distinct nodes, %d of them common to both versions (in %d leftmost-spine chains; %d entry-less); the versions differ in D=%d nodes and %d entries, bound 2D+2=%d (old has %d nodes, new %d) | %s cfg{%s}", what, loaded, len(common), heads, pt, D, E, 2*D+2, len(ro), len(rn), p.Desc, cfg)
 		}
 		_ = ctx
 	}
